@@ -96,12 +96,17 @@ variable (b : VBody)
 
 def start : Co b.σ := ⟨.created b.init, [], none⟩
 
-/-- classify one run of the body; a yielded Future has just had its flag set by `Future.__await__` -/
+/-- `Future.__await__` sets the flag of the future immediately before yielding it -/
+def armYield (y : Y) (F : Futs) : Futs :=
+  match y with
+  | .fut f => setFlag F f true
+  | _ => F
+
+/-- classify one run of the body -/
 def after (c : Co b.σ) (r : Resume) (F : Futs) (x : b.σ × Out) : Co b.σ × Out × Futs :=
   let log := (r, F) :: c.log
   match x.2 with
-  | .yield (.fut f) => (⟨.susp x.1, log, none⟩, .yield (.fut f), setFlag F f true)
-  | .yield y => (⟨.susp x.1, log, none⟩, .yield y, F)
+  | .yield y => (⟨.susp x.1, log, none⟩, .yield y, armYield y F)
   | .ret v => (⟨.done, log, some x.1⟩, .ret v, F)
   | .raise (.stopIter _) => (⟨.done, log, some x.1⟩, .raise (.runtime rtRaisedStopIter), F)
   | .raise e => (⟨.done, log, some x.1⟩, .raise e, F)
@@ -192,15 +197,13 @@ def taskWakeup (s : K κ) (f : Nat) : K κ :=
 end kernel
 
 /-- future `f` has just become done: its callbacks are scheduled -/
-def notify {κ : Type} (s : K κ) (f : Nat) : K κ :=
-  if s.task.futWaiter = some f ∧ s.task.outcome = none then
-    { s with task := { s.task with ready := some (.wakeup f) } }
-  else s
+def notify (t : Task) (f : Nat) : Task :=
+  if t.futWaiter = some f ∧ t.outcome = none then { t with ready := some (.wakeup f) } else t
 
-def finishFut {κ : Type} (s : K κ) (f : Nat) (st : FSt) : K κ :=
-  match (s.futs f).st with
-  | .pending => notify { s with futs := s.futs.set f { s.futs f with st := st } } f
-  | _ => s
+def finishFut (t : Task) (F : Futs) (f : Nat) (st : FSt) : Task × Futs :=
+  match (F f).st with
+  | .pending => (notify t f, F.set f { F f with st := st })
+  | _ => (t, F)
 
 inductive Ev where
   | run                              -- the loop runs this task's ready handle, if it has one
@@ -212,30 +215,36 @@ inductive Ev where
 deriving Repr, DecidableEq
 
 /-- `Task.cancel()` -/
-def taskCancel {κ : Type} (s : K κ) : K κ :=
-  match s.task.outcome with
-  | some _ => s
+def taskCancel (t : Task) (F : Futs) : Task × Futs :=
+  match t.outcome with
+  | some _ => (t, F)
   | none =>
-    match s.task.futWaiter with
-    | none => { s with task := { s.task with mustCancel := true } }
+    match t.futWaiter with
+    | none => ({ t with mustCancel := true }, F)
     | some f =>
-      match (s.futs f).st with
+      match (F f).st with
       | .pending =>
-        if (s.futs f).isTask then { s with futs := s.futs.set f { s.futs f with cancelReq := true } }
-        else notify { s with futs := s.futs.set f { s.futs f with st := .cancelled } } f
-      | _ => { s with task := { s.task with mustCancel := true } }
+        if (F f).isTask then (t, F.set f { F f with cancelReq := true })
+        else (notify t f, F.set f { F f with st := .cancelled })
+      | _ => ({ t with mustCancel := true }, F)
 
-def kstep {κ : Type} (cstep : CStep κ) (s : K κ) : Ev → K κ
+/-- environment events other than `run`: the coroutine object is not involved -/
+def envStep (t : Task) (F : Futs) : Ev → Task × Futs
+  | .run => (t, F)
+  | .resolve f v => finishFut t F f (.result v)
+  | .fail f e => finishFut t F f (.exc e)
+  | .cancelFut f => finishFut t F f .cancelled
+  | .clearFlag f => (t, setFlag F f false)
+  | .cancel => taskCancel t F
+
+def kstep {κ : Type} (cstep : CStep κ) (s : K κ) (e : Ev) : K κ :=
+  match e with
   | .run =>
     match s.task.outcome, s.task.ready with
     | none, some (.step e) => taskStep cstep s e
     | none, some (.wakeup f) => taskWakeup cstep s f
     | _, _ => s
-  | .resolve f v => finishFut s f (.result v)
-  | .fail f e => finishFut s f (.exc e)
-  | .cancelFut f => finishFut s f .cancelled
-  | .clearFlag f => { s with futs := setFlag s.futs f false }
-  | .cancel => taskCancel s
+  | e => ⟨s.co, (envStep s.task s.futs e).1, (envStep s.task s.futs e).2⟩
 
 def runK {κ : Type} (cstep : CStep κ) (s : K κ) (es : List Ev) : K κ := es.foldl (kstep cstep) s
 
@@ -288,12 +297,13 @@ def contResume (fix : Fix) (b : VBody) : CStep (Cont b.σ)
     (.relay co, .yield held, rearmHeld fix held F)
   | .unstarted co held, .throw e, F =>
     if fix.firstThrow then
-      let F1 := rearmHeld fix held F
+      -- gen.send(None) steps `__await__` to its yield (flag re-armed); if the held future is not
+      -- passed on after all, the flag is taken back
       match e, held with
       | .cancelled, .fut f =>
-        let c := futCancel F1 f
-        if c.2 then (.relay co, .yield held, c.1) else relayStep b co (.throw e) F1
-      | _, _ => relayStep b co (.throw e) F1
+        let c := futCancel F f
+        if c.2 then (.relay co, .yield held, rearmHeld fix held c.1) else relayStep b co (.throw e) F
+      | _, _ => relayStep b co (.throw e) F
     else
       (.dead co, .raise e.toExc, F)
 
